@@ -200,8 +200,26 @@ def main(argv):
             known.append((v.name, kf)); continue
         json.dump(rec, open(rp, 'w'), indent=1, default=str)
         violations.append((rp, bool(witness), v.name))
+    # --- obligations that could not be discharged AND a failing input of the same function found on the real code:
+    #     the undischarged obligation is reported as the violation, with the replayed input
+    used_fail = set()
+    if not refuted and (undec or und) and fails:
+        for v in undec:
+            for n, f in enumerate(fails):
+                fnname = (f.get('function') or '').split('.')[-1]
+                if fnname and fnname in v.name and n not in used_fail:
+                    if match_known(prop, v.name): break
+                    used_fail.add(n)
+                    rp = os.path.join(VERIF, 'replays', prop, hashlib.sha1(v.name.encode()).hexdigest()[:12] + '.json')
+                    rec = dict(property=prop, obligation=v.name, kind=f.get('kind'), input=f.get('input'), expected=f.get('expected'),
+                               observed=f.get('observed'), confirmed=True,
+                               verifier=dict(backend='z3', result=v.result, reason=v.model, kind=v.kind, line=v.line,
+                                             note='obligation no longer discharged (solver: %s); failing input found by the bounded search and replayed on the real code' % v.result))
+                    json.dump(rec, open(rp, 'w'), indent=1, default=str)
+                    violations.append((rp, True, v.name)); break
+        fails = [f for n, f in enumerate(fails) if n not in used_fail] if violations else fails
     # --- failures found only by the bounded stand-in (all deductive obligations of that part discharged)
-    if not refuted:
+    if not refuted and not violations:
         for n, f in enumerate(fails[:5]):
             kf = match_known(prop, None, f.get('kind'))
             if kf: known.append((f.get('kind'), kf)); continue
@@ -224,7 +242,7 @@ def main(argv):
     for v in undec: print('UNDECIDED obligation %s: %s' % (v.name, v.model))
     for u in und: print('UNDECIDED function %s: %s' % (u['function'], u['reason']))
     if violations:
-        for rp, confirmed, name in violations:
+        for name in sorted({name for _, _, name in violations}):
             print('  failed obligation: ' + name)
         for rp, confirmed, name in violations[:1] if all(c for _, c, _ in violations) else violations:
             print('VIOLATION property=%s replay=%s%s' % (prop, rp, '' if confirmed else ' no-failing-input-found'))
